@@ -80,10 +80,15 @@ DESCR = {
                'status leaving and returning to the stored state between two store updates (prep failure with submission retry)'),
     'S-C30b': ('task_pool.py load_db_task_pool_for_restart: satisfied prerequisites reloaded as booleans',
                '`cylc set --pre`, restart, then `cylc remove` of the parent'),
+    'S-C09b': ('task_proxy.py copy_to_reload_successor: completed outputs replayed by trigger name instead of message',
+               'custom output whose message differs from its name, completed, task still pooled, then a reload'),
+    'S-C28b': ('commands.py force_trigger_tasks: upstream IDs built without the cycle offset when grouping members',
+               'one group trigger whose members span several cycle points linked only by an inter-cycle trigger'),
     'S-C31': ('cycling/integer.py get_nearest_prev_point reduced to get_prev_point',
               'sequential task on a finite recurrence followed after a gap by another recurrence'),
 }
 NOTES = {
+    'S-C09b': 'caught by C27 (outputs across a reload); C09 has no reload in its workload',
     'S-C01b': 'caught by C09 and C10; C01 does not see it (with message loss its closure check only gives a lower bound)',
     'S-C03b': 'first missed: no check combined manual triggers with job-preparation failures; the bash -n seam now injects them and C28 got the stranded-member rule',
     'S-C11b': 'caught by C27 (outputs across a reload), not by C11',
